@@ -7,9 +7,9 @@ Import ListNotations.
 Lemma single_driver_run : forall ops, single_driver (run ops).
 Proof. intros. apply (i_src _ (run_inv ops)). Qed.
 Lemma one_driver_run : forall ops w q q',
-  w < nwire (run ops) -> driver (run ops) q w -> driver (run ops) q' w -> q = q'.
+  w < nwire (run ops) -> wbidir (run ops) w = false -> driver (run ops) q w -> driver (run ops) q' w -> q = q'.
 Proof.
-  intros ops w q q' Hw D1 D2. pose proof (single_driver_run ops) as SD.
+  intros ops w q q' Hw Hb D1 D2. pose proof (single_driver_run ops) as SD.
   apply SD in D1; auto. apply SD in D2; auto. congruence.
 Qed.
 Lemma unique_children_run : forall ops, unique_children (run ops).
@@ -20,6 +20,9 @@ Lemma wires_registered_run : forall ops, all_registered (run ops).
 Proof. exact registered_run. Qed.
 Lemma sinks_exact_run : forall ops, sinks_exact (run ops).
 Proof. exact sinks_run. Qed.
+
+Lemma sources_exact_run : forall ops, sources_exact (run ops).
+Proof. exact sources_run. Qed.
 
 Lemma conflict_raises_run : forall ops o c,
   valid_op (run ops) o -> conflict_of (run ops) o = Some c -> snd (step (run ops) o) = Raise c.
@@ -56,6 +59,12 @@ Lemma integrity_constructed : forall ops h,
   (checkIntegrity (run ops) h = IOk <-> forall q, visited (run ops) h q -> ~ undriven (run ops) q).
 Proof. intros. apply integrity_clean; auto. apply run_inv. Qed.
 
+Lemma integrity_spec_run : forall ops h,
+  h < nobj (run ops) -> (forall q, visited (run ops) h q -> ~ on_bidir (run ops) q) ->
+  (checkIntegrity (run ops) h = IRaise <-> exists q, visited (run ops) h q /\ no_driver (run ops) q) /\
+  (checkIntegrity (run ops) h = IOk <-> forall q, visited (run ops) h q -> ~ no_driver (run ops) q).
+Proof. intros. apply integrity_spec; auto. apply run_inv. Qed.
+
 Lemma tree_ok_run : forall ops, tree_ok (run ops).
 Proof. intros. apply inv_tree_ok, run_inv. Qed.
 
@@ -63,10 +72,10 @@ Proof. intros. apply inv_tree_ok, run_inv. Qed.
 Lemma checked_predicates_exact : forall s,
   (single_driver_b s = true <-> single_driver s) /\ (unique_children_b s = true <-> unique_children s) /\
   (unique_wires_b s = true <-> unique_wires s) /\ (sinks_exact_b s = true <-> sinks_exact s) /\
-  (all_registered_b s = true <-> all_registered s).
+  (all_registered_b s = true <-> all_registered s) /\ (sources_exact_b s = true <-> sources_exact s).
 Proof.
   intros s. split; [apply single_driver_b_iff|]. split; [apply unique_children_b_iff|].
-  split; [apply unique_wires_b_iff|]. split; [apply sinks_exact_b_iff | apply all_registered_b_iff].
+  split; [apply unique_wires_b_iff|]. split; [apply sinks_exact_b_iff|]. split; [apply all_registered_b_iff | apply sources_exact_b_iff].
 Qed.
 Lemma checked_frames_exact : forall s o s', unique_children s -> unique_wires s ->
   (children_stay_b s s' = true <-> children_stay s s') /\ (drivers_stay_b s s' = true <-> drivers_stay s s') /\
@@ -76,5 +85,5 @@ Proof.
   split; [apply drivers_stay_b_iff | apply wires_stay_b_iff; auto].
 Qed.
 Lemma checked_integrity_exact : forall s h, unique_children s -> h < nobj s ->
-  (undriven_port_b s h = true <-> exists q, visited s h q /\ undriven s q).
+  (undriven_port_b s h = true <-> exists q, visited s h q /\ no_driver s q).
 Proof. exact undriven_port_b_iff. Qed.
